@@ -132,10 +132,8 @@ def partitionValidity {α : Type} (col : List (Option α)) : List (Nat × α) ×
   ((List.range col.length).filterMap (fun i => (col.getD i none).map (fun v => (i, v))),
    (List.range col.length).filter (fun i => (col.getD i none).isNone))
 
-/-- the private `sort_unstable_by(array, limit, cmp)` + `partial_sort` of sort.rs, as a
-parameter: `sortBy cmp limit xs`.  (std: `len == limit` → `sort_unstable_by`, otherwise
-`select_nth_unstable_by(limit-1)` and sort of the part before.) -/
-abbrev PartialSorter := {β : Type} → (β → β → Ordering) → Nat → List β → List β
+/- the private `sort_unstable_by(array, limit, cmp)` + `partial_sort` of sort.rs is the
+parameter `sortBy : PartialSorter` (`sortBy cmp limit xs`, see Spec: `SortContract`). -/
 
 /-- `sort_impl(options, valids, nulls, limit, cmp)` -/
 def sortImpl {α : Type} (sortBy : PartialSorter) (o : SortOptions) (valids : List (Nat × α))
